@@ -263,6 +263,42 @@ pub fn add_sections(rep: &mut Report, prop: &str, thorough: bool, conformant_onl
         });
         rep.add(sec);
     }
+    if prop == "C07" {
+        // entry points that must agree: serialize_request(key) and serialize_request_with_attributes(key, no attributes), for
+        // every name x every alternative-name list x key usages / extended key usages on and off
+        let dns = dn_values();
+        let sans = san_values();
+        let cases: Vec<(usize, usize, u8)> = (0..dns.len()).flat_map(|d| (0..sans.len()).flat_map(move |s| (0..4u8).map(move |m| (d, s, m)))).collect();
+        let sec = Section::new("csr/entry-points agree", &format!("{} states (every name x every alternative-name list x key usages / extended key usages on and off): serialize_request and serialize_request_with_attributes with an empty list give the same bytes", cases.len()));
+        run::sweep_cases(&sec, &cases, &|c| format!("dn={} sans={} mask={}", dns[c.0].0, sans[c.1].0, c.2), &|c| {
+            let mut out = Outcome::default();
+            let mut st = CertState::default();
+            st.dn = dns[c.0].1.clone();
+            st.sans = sans[c.1].1.clone();
+            if c.2 & 1 != 0 {
+                st.key_usages = vec![0, 2];
+            }
+            if c.2 & 2 != 0 {
+                st.ekus = vec![EkuSpec::ClientAuth];
+            }
+            let Ok(p) = crate::glue::to_params(&st) else { return out };
+            let a = guarded(|| p.serialize_request(&key).map(|c| c.der().to_vec()));
+            let b = guarded(|| p.serialize_request_with_attributes(&key, vec![]).map(|c| c.der().to_vec()));
+            out.transitions = 2;
+            match (a, b) {
+                (Ok(Ok(x)), Ok(Ok(y))) => {
+                    out.digest = fnv(&x);
+                    if x != y {
+                        out.findings.push(Finding::new("CNT-ENTRY-POINTS-DISAGREE", "serialize_request vs serialize_request_with_attributes(no attributes)", "different bytes"));
+                    }
+                }
+                (Ok(Err(_)), Ok(Err(_))) => {}
+                (x, y) => out.findings.push(Finding::new("CNT-ENTRY-POINTS-DISAGREE", "serialize_request vs serialize_request_with_attributes(no attributes)", format!("{:?} vs {:?}", x.map(|r| r.map(|v| v.len())), y.map(|r| r.map(|v| v.len()))))),
+            }
+            out
+        });
+        rep.add(sec);
+    }
     if prop == "C07" || prop == "C04" {
         // caller-supplied attribute values are opaque bytes: whatever their shape, they appear byte for byte
         let y = der::string(der::T_UTF8, b"y");
